@@ -25,6 +25,16 @@ chk("C14", "model_checking",
     "explicit-state BFS to closure with reference model, binary as transition function", "3/C14")
 
 
+chk("C02", "model_checking",
+    "Stateless bounded-exhaustive exploration on the real binary: all programs of the generated universes (every expression "
+    "neighbourhood of G_expr(2) in statement/argument/#define contexts, preprocessor shapes, declaration units, statements) x base "
+    "profiles (defaults, all-remove/force/add spacing, whitespace projection of 15 shipped styles) x every single deviation over "
+    "every whitespace option the base run reads (sound read-set pruning); thorough adds sp x sp pairs and the 1321 corpus files. "
+    "Oracle: independent C/C++/ObjC/Java lexer with directive structure; uncrustify's own raw tokeniser for the other languages.",
+    "independent lexer mc/lex/cfamily.py; read-set hook soundness (Option<T>::operator() is the only read path); programs up to the stated grammar size only",
+    "bounded-exhaustive program x configuration enumeration (k<=1 quick, k<=2 thorough) with independent re-lexing oracle", "3/C02")
+
+
 def main():
     commits = subprocess.run(["git", "-C", "/repo", "log", "--format=%h %s"], stdout=subprocess.PIPE, text=True).stdout.splitlines()
     hooks = [c.split()[0] for c in commits if c.split(" ", 1)[1].startswith("verif hook:")]
